@@ -35,6 +35,10 @@ where
                 let absv = x_curr - old_x_curr;
                 (absv.abs() / x_curr) * 100_f64
             };
+        } else {
+            // No relative change can be computed at 0: keeping the previous value could
+            // pass the tolerance test although nothing is known about this midpoint
+            approx_err = f64::INFINITY;
         }
         let value_at_lower = polynomial.eval_univariate(lower_bound)?;
         let test = value_at_lower * polynomial.eval_univariate(x_curr)?;
